@@ -49,6 +49,10 @@ pub struct TxSpec {
     /// extra cell dep on an output of another scenario transaction
     pub dep: Option<InRef>,
     pub salt: u64,
+    /// header dep on the main-chain block this many blocks below the tip at the moment the
+    /// transaction is first materialised (no header dep while the chain is only the genesis block)
+    #[serde(default)]
+    pub hdep: Option<u64>,
 }
 
 /// C04: where the probe transaction's first input comes from (resolved against the context at probe time)
@@ -188,17 +192,27 @@ pub fn generate(seed: u64, prop: &str) -> PoolScenario {
             1 | 2 => r.range(5_000, 60_000),
             _ => r.range(400, 3_000),
         };
-        let dep = if !txs.is_empty() && r.chance(1, 8) {
+        let dep = if !txs.is_empty() && r.chance(1, 5) {
             let tt = r.idx(txs.len());
-            Some(InRef::T(tt, 0))
+            // mostly output 0, so that the same cell is often both depended on and spent
+            Some(InRef::T(tt, if r.chance(3, 4) { 0 } else { r.idx(txs[tt].outputs.max(1)) }))
         } else {
             None
         };
         for o in 0..outputs {
             outs.push((t, o));
         }
-        txs.push(TxSpec { inputs, outputs, fee, dep, salt: r.below(1 << 30) });
+        let hdep = if r.chance(1, 7) { Some(r.range(0, 3)) } else { None };
+        txs.push(TxSpec { inputs, outputs, fee, dep, salt: r.below(1 << 30), hdep });
     }
+    // planted shape: an output of an early transaction x is referenced as cell dep by p and spent by c
+    if ntx >= 4 && r.chance(1, 2) {
+        let x = r.idx((ntx / 3).max(1));
+        let g1 = InRef::G(r.idx(g));
+        txs.push(TxSpec { inputs: vec![g1], outputs: 1, fee: r.range(600, 3_000), dep: Some(InRef::T(x, 0)), salt: r.below(1 << 30), hdep: None });
+        txs.push(TxSpec { inputs: vec![InRef::T(x, 0)], outputs: r.urange(1, 2), fee: r.range(600, 3_000), dep: None, salt: r.below(1 << 30), hdep: None });
+    }
+    let ntx = txs.len();
     // operations
     let nops = r.urange(20, 120);
     let mut ops = Vec::new();
@@ -229,6 +243,37 @@ pub fn generate(seed: u64, prop: &str) -> PoolScenario {
             8 => ops.push(POp::Clock { ms: *r.pick(&[1_000u64, 60_000, 3_600_000, 13 * 3_600_000]) }),
             _ => ops.push(POp::Expire),
         }
+    }
+    if (prop == "C11" || prop == "C12") && r.chance(2, 5) {
+        // "commit, build on top, detach" skeleton: the first part of the DAG is committed, the rest
+        // is submitted on top of it, then a competing branch detaches every mined block so that the
+        // committed transactions return to the pool BELOW their pooled descendants and dep users
+        let mut sk = Vec::new();
+        let first = (ntx / 3).max(2).min(ntx);
+        for t in 0..first {
+            sk.push(POp::Submit { t, remote: r.chance(1, 4) });
+            sk.push(POp::Quiesce);
+        }
+        let mines = cfg.w_close + 2 + r.range(0, 3);
+        for _ in 0..mines {
+            sk.push(POp::Mine);
+            sk.push(POp::Quiesce);
+        }
+        for t in first..ntx {
+            sk.push(POp::Submit { t, remote: r.chance(1, 4) });
+            if r.chance(2, 3) {
+                sk.push(POp::Quiesce);
+            }
+        }
+        sk.push(POp::Quiesce);
+        sk.push(POp::Fork { back: r.range(1, mines), len: r.range(1, 3), seed: r.below(1 << 40) });
+        if r.chance(1, 2) {
+            sk.push(POp::Poll { k: r.idx(8) });
+            sk.push(POp::Submit { t: r.idx(ntx), remote: false });
+        }
+        sk.push(POp::Quiesce);
+        sk.extend(ops.drain(..).take(30));
+        ops = sk;
     }
     if prop == "C04" {
         // probes at arbitrary points of the history (the pool is brought to rest before each)
@@ -532,6 +577,14 @@ impl PoolExec {
             tb = tb.output(o0.clone().as_builder().capacity(Capacity::shannons(cap)).build()).output_data(Bytes::new());
         }
         tb = tb.witness(Bytes::from(spec.salt.to_le_bytes().to_vec()).pack());
+        if let Some(back) = spec.hdep {
+            let chain = &self.w.st(self.tip_idx).chain;
+            let tipn = chain.len() - 1;
+            if tipn > 0 {
+                let n = tipn - (back as usize % tipn.min(4));
+                tb = tb.header_dep(self.w.blocks[chain[n]].view.hash());
+            }
+        }
         let tx = tb.build();
         self.w.add_tx(tx.clone(), spec.fee);
         self.txs[t] = Some(tx.clone());
@@ -1545,10 +1598,25 @@ impl PoolExec {
                     self.viol("C11", "double_spend_in_pool", format!("{why}: {} and {} spend the same cell", hex(&other), hex(&h)));
                 }
             }
+            for hd in e.tx.header_deps().into_iter() {
+                let on_main = self.w.by_hash.get(&hd).map(|i| st.chain.get(self.w.blocks[*i].number as usize) == Some(i)).unwrap_or(false);
+                if !on_main {
+                    self.viol("C12", "pooled_tx_with_detached_header_dep", format!("{why}: tx {} depends on header {} which is not on the main chain", hex(&h), hex(&hd)));
+                } else {
+                    self.res.probes.inc("pooled_tx_with_header_dep_checked");
+                }
+            }
             for dep in e.tx.cell_deps().into_iter() {
                 let op = dep.out_point();
                 let live = st.cells.contains_key(&op) || pooled.contains_key(&op.tx_hash());
-                if !live {
+                // same distinction as for inputs: a dep that vanished through a purely pool-internal
+                // event (RPC removal / RBF racing with a suspended submission) is observed, not a C12 matter
+                let chain_related = self.w.blocks.iter().any(|b| b.view.transactions().iter().any(|t| t.hash() == op.tx_hash()))
+                    || self.w.blocks.iter().any(|b| b.view.transactions().iter().skip(1).any(|t| t.inputs().into_iter().any(|j| j.previous_output() == op)));
+                if !live && !chain_related {
+                    self.res.probes.inc("pool_internal_lost_parent_race_observed");
+                }
+                if !live && chain_related {
                     self.viol("C12", "pooled_tx_with_dead_dep", format!("{why}: tx {} depends on a cell that is neither live nor pooled", hex(&h)));
                 }
             }
